@@ -14,7 +14,7 @@ import numpy as np
 from verifsim import core, harness, sched
 
 PROP = "C23"
-STYPES = ["sym", "float", "list", "ndarray", "ndarray_nc", "ndarray_f", "field", "multifield"]
+STYPES = ["sym", "float", "list", "ndarray", "ndarray_nc", "ndarray_f", "ndarray_0d", "field", "multifield"]
 
 
 class Sym:
@@ -77,6 +77,8 @@ def summands(n, stype):
             base = rng.uniform(0.5, 1.5, (4, 6)) * 10.0 ** rng.integers(-9, 9, (4, 6))
             out.append(base[::2, ::2] if i % 2 == 0 else base.T[:2, :3])
         return out
+    if stype == "ndarray_0d":
+        return [np.array(rng.uniform(0.5, 1.5) * 10.0 ** rng.integers(-9, 9)) for _ in range(n)]
     if stype == "ndarray_f":
         return [np.asfortranarray(rng.uniform(0.5, 1.5, (2, 3)) * 10.0 ** rng.integers(-9, 9, (2, 3)))
                 for _ in range(n)]
@@ -119,7 +121,7 @@ def run_case(case):
     detail = ""
     probs = out.problems()
     if probs:
-        p = probs[0]
+        p = next((q for q in probs if q.startswith("rank")), probs[0])   # root cause first
         sig = {"oracle": p.split(":")[0] if not p.startswith("rank") else "rank-raised:" + p.split(":")[1]}
         detail = "; ".join(probs)
         for e in out.exc:
